@@ -70,6 +70,43 @@ def conc(t):
     return E().concretize(t)
 
 
+def f64_round(t):
+    """IEEE double nearest to the signed 80-bit integer t (round half to even), again as an integer term.
+    Exact below 2**53; levels 2**53..2**65 are spelled out (inputs are at most 64-bit words)."""
+    neg = t < I(0)
+    a = z3.If(neg, -t, t)
+    r = a
+    for e in range(53, 66):
+        q = 1 << (e - 52)
+        m = a & I(q - 1)
+        lo = a - m
+        odd = z3.Extract(e - 52, e - 52, lo) == z3.BitVecVal(1, 1)
+        up = z3.Or(z3.UGT(m, I(q // 2)), z3.And(m == I(q // 2), odd))
+        r = z3.If(z3.LShR(a, e) == I(1), z3.If(up, lo + I(q), lo), r)
+    return z3.If(neg, -r, r)
+
+
+def from_f64(t, k):
+    """C cast double -> integer kind k of an integer-valued double t; out of range is undefined
+    behaviour in C, modelled as an arbitrary value of the target type (over-approximation)."""
+    bits, signed = NPK[k]
+    lo, hi = (-(2 ** (bits - 1)), 2 ** (bits - 1) - 1) if signed else (0, 2 ** bits - 1)
+    inr = z3.simplify(z3.And(t >= I(lo), t <= I(hi)))
+    if z3.is_true(inr):
+        return t
+    any_ = z3.BitVec(_fresh("ub_cast"), W)
+    E().assume(z3.And(any_ >= I(lo), any_ <= I(hi)))
+    return z3.If(inr, t, any_)
+
+
+_FRESH = [0]
+
+
+def _fresh(p):
+    _FRESH[0] += 1
+    return "%s_%d" % (p, _FRESH[0])
+
+
 class S:
     """Symbolic integer scalar: kind 'py' (Python int) or a NumPy integer kind.  Hash is
     constant so it can be a dict key with solver-decided equality (section 2.4)."""
@@ -165,7 +202,7 @@ class DT:
             k = k.k
         elif k is int:
             k = "i8"
-        elif k is float:
+        elif k is float or k == "f":
             k = "f8"
         if k not in NPK and k != "f8":
             raise HarnessError("bvio dtype %r" % (k,))
@@ -220,11 +257,18 @@ class Arr:
 
     def astype(self, d, copy=True):
         d = DT(d)
-        if d.k == "f8":
-            raise HarnessError("astype float")
         if self.a.size == 0:
             return Arr(rnp.empty(self.a.shape, dtype=object), d)
-        f = rnp.frompyfunc(lambda x: S(wrap(T(x), d.k), d.k), 1, 1)
+        if d.k == "f8":
+            f = rnp.frompyfunc(lambda x: x if x.kind == "f" else S(f64_round(T(x)), "f"), 1, 1)
+        elif self.dtype.k == "f8":
+            f = rnp.frompyfunc(lambda x: S(from_f64(T(x), d.k), d.k), 1, 1)
+        else:
+            f = rnp.frompyfunc(lambda x: S(wrap(T(x), d.k), d.k), 1, 1)
+        if self.a.ndim == 0:
+            r = rnp.empty((), dtype=object)
+            r[()] = f(self.a[()])
+            return Arr(r, d)
         return Arr(f(self.a), d)
 
     def tolist(self):
@@ -307,6 +351,10 @@ class SBytes:
         return len(self.bs)
 
     def __getitem__(self, k):
+        if isinstance(k, slice):
+            k = slice(_cidx(k.start), _cidx(k.stop), _cidx(k.step))
+        else:
+            k = _cidx(k)
         r = self.bs[k]
         return SBytes(r) if isinstance(k, slice) else r
 
@@ -395,12 +443,40 @@ class SizeFile:
 FMT = {"<Q": 8, "<L": 4, "<H": 2, "<B": 1, "<I": 4}
 
 
-def _fmt(fmt):
-    if fmt not in FMT:
-        if fmt in (">Q", ">L", ">H", ">B", ">I", "!Q", "!L", "!H", "!I", "!B"):
-            return FMT["<" + fmt[1]], True
+def _fields(fmt):
+    """Standard-size struct format -> ([field sizes], big_endian).  Native ('@' or no prefix) formats
+    have platform alignment and are not modelled."""
+    if not isinstance(fmt, str) or not fmt or fmt[0] not in "<>!=":
         raise HarnessError("struct format %r" % (fmt,))
-    return FMT[fmt], False
+    big = fmt[0] in ">!"
+    if fmt[0] == "=" and sys.byteorder != "little":
+        raise HarnessError("struct format %r on a big-endian host" % (fmt,))
+    sizes = []
+    cnt = ""
+    for ch in fmt[1:]:
+        if ch.isdigit():
+            cnt += ch
+            continue
+        if ch.isspace():
+            continue
+        if ch == "x":
+            sizes.extend([-1] * int(cnt or 1))
+        elif ch in _FSIZE:
+            sizes.extend([_FSIZE[ch]] * int(cnt or 1))
+        else:
+            raise HarnessError("struct format %r" % (fmt,))
+        cnt = ""
+    return sizes, big
+
+
+_FSIZE = {"Q": 8, "L": 4, "I": 4, "H": 2, "B": 1}
+
+
+def _fmt(fmt):
+    sizes, big = _fields(fmt)
+    if len(sizes) != 1 or sizes[0] < 0:
+        raise HarnessError("struct format %r" % (fmt,))
+    return sizes[0], big
 
 
 class struct_:
@@ -408,38 +484,71 @@ class struct_:
 
     @staticmethod
     def pack(fmt, *vs):
-        if len(vs) != 1:
-            raise HarnessError("struct.pack with %d values" % len(vs))
-        v = vs[0]
-        n, big = _fmt(fmt)
-        if isinstance(v, (S, SBool)):
-            t = T(v)
-            if not E().branch(z3.And(t >= 0, t < I(256 ** n))):
-                raise rstruct.error("argument out of range")
-            bs = le_bytes(t, n)
-            return SBytes(bs[::-1] if big else bs)
-        return SBytes(bv8(rstruct.pack(fmt, v)))
+        sizes, big = _fields(fmt)
+        if len(vs) != len([n for n in sizes if n > 0]):
+            raise rstruct.error("pack expected %d items for packing (got %d)" % (len(sizes), len(vs)))
+        out = []
+        vs = list(vs)
+        for n in sizes:
+            if n < 0:
+                out.extend(bv8(b"\0"))
+                continue
+            v = vs.pop(0)
+            if isinstance(v, (S, SBool)):
+                t = T(v)
+                if not E().branch(z3.And(t >= 0, t < I(256 ** n))):
+                    raise rstruct.error("argument out of range")
+                bs = le_bytes(t, n)
+            else:
+                bs = bv8(rstruct.pack("<" + {8: "Q", 4: "L", 2: "H", 1: "B"}[n], v))
+            out.extend(bs[::-1] if big else bs)
+        return SBytes(out)
+
+    @staticmethod
+    def _unpack(sizes, big, bs):
+        out = []
+        p = 0
+        for n in sizes:
+            if n > 0:
+                part = list(bs[p:p + n])
+                out.append(S(from_le(part[::-1] if big else part)))
+            p += abs(n)
+        return tuple(out)
 
     @staticmethod
     def unpack(fmt, b):
-        n, big = _fmt(fmt)
+        sizes, big = _fields(fmt)
+        n = sum(abs(x) for x in sizes)
         if len(b) != n:
             raise rstruct.error("unpack requires a buffer of %d bytes" % n)
-        bs = list(b.bs)
-        return (S(from_le(bs[::-1] if big else bs)),)
+        return struct_._unpack(sizes, big, list(b.bs))
 
     @staticmethod
     def unpack_from(fmt, buf, offset=0):
-        n, big = _fmt(fmt)
+        sizes, big = _fields(fmt)
+        n = sum(abs(x) for x in sizes)
         offset = _cidx(offset)
+        if offset < 0:
+            offset += len(buf.bs)
         if offset < 0 or offset + n > len(buf.bs):
             raise rstruct.error("unpack_from requires a buffer of at least %d bytes" % (offset + n))
-        bs = list(buf.bs[offset:offset + n])
-        return (S(from_le(bs[::-1] if big else bs)),)
+        return struct_._unpack(sizes, big, list(buf.bs[offset:offset + n]))
 
     @staticmethod
     def calcsize(fmt):
-        return _fmt(fmt)[0]
+        return sum(abs(x) for x in _fields(fmt)[0])
+
+
+def sx_from_bytes(b, byteorder="big", *, signed=False):
+    """int.from_bytes over symbolic bytes."""
+    if not isinstance(b, SBytes):
+        return int.from_bytes(b, byteorder, signed=signed)
+    if signed:
+        raise HarnessError("int.from_bytes(signed=True)")
+    bs = list(b.bs)
+    if len(bs) > 9:
+        raise HarnessError("int.from_bytes of %d bytes" % len(bs))
+    return S(from_le(bs if byteorder == "little" else bs[::-1]))
 
 
 class mmap_:
@@ -535,6 +644,60 @@ class NP:
     asarray = array
 
     @staticmethod
+    def _as_arr(x):
+        """numpy.asarray of an array or a scalar, with NumPy's dtype choice for Python ints."""
+        if isinstance(x, Arr):
+            return x
+        if isinstance(x, (list, tuple)):
+            return NP.array(x)
+        if isinstance(x, S) and x.kind not in ("py",):
+            k = "f8" if x.kind == "f" else x.kind
+            a = rnp.empty((), dtype=object)
+            a[()] = x
+            return Arr(a, k)
+        t = T(x)
+        if E().branch(z3.And(t >= I(-(2 ** 63)), t < I(2 ** 63))):
+            k = "i8"
+        elif E().branch(z3.And(t >= I(0), t < I(2 ** 64))):
+            k = "u8"
+        else:
+            raise HarnessError("Python integer beyond 64 bits as an array (object dtype)")
+        a = rnp.empty((), dtype=object)
+        a[()] = S(t, k)
+        return Arr(a, k)
+
+    @staticmethod
+    def concatenate(arrs, axis=0, dtype=None):
+        arrs = [NP._as_arr(a) for a in arrs]
+        if axis is not None and any(a.ndim != arrs[0].ndim or a.ndim == 0 for a in arrs):
+            raise ValueError("all the input array dimensions must match / zero-dimensional arrays cannot be concatenated")
+        if axis not in (None, 0) or any(a.ndim > 1 for a in arrs) and axis is not None:
+            raise HarnessError("concatenate along axis %r of n-d arrays" % (axis,))
+        if dtype is not None:
+            k = DT(dtype).k
+        else:
+            r = rnp.result_type(*[rnp.dtype("f8" if a.dtype.k == "f8" else a.dtype.k) for a in arrs])
+            if r.kind == "f":
+                k = "f8"
+            elif r.kind in "iu":
+                k = r.str[1:]
+            else:
+                raise HarnessError("concatenate result type %s" % r)
+        parts = [a.astype(k).a.ravel() for a in arrs]
+        return Arr(rnp.concatenate(parts) if parts else rnp.empty((0,), dtype=object), k)
+
+    @staticmethod
+    def append(arr, values, axis=None):
+        if axis is not None:
+            raise HarnessError("numpy.append with an axis")
+        return NP.concatenate((arr, values), axis=None)
+
+    @staticmethod
+    def ravel(a):
+        a = NP._as_arr(a)
+        return Arr(a.a.ravel(), a.dtype)
+
+    @staticmethod
     def max(arr):
         if arr.a.size == 0:
             raise ValueError("zero-size array to reduction operation maximum which has no identity")
@@ -622,6 +785,9 @@ class _RW(ast.NodeTransformer):
         self.generic_visit(n)
         if isinstance(n.func, ast.Name) and n.func.id in ("len", "type", "int", "isinstance"):
             n.func = ast.Name("_sx_" + n.func.id, ast.Load())
+        elif (isinstance(n.func, ast.Attribute) and n.func.attr == "from_bytes"
+              and isinstance(n.func.value, ast.Name) and n.func.value.id == "int"):
+            n.func = ast.Name("_sx_from_bytes", ast.Load())
         return n
 
 
@@ -642,7 +808,7 @@ def load_indxio():
     pkg.__path__ = []
     sys.modules["catii"] = pkg
     sys.modules["catii.iindexes"] = ii
-    m.__dict__.update(_sx_len=sx_len, _sx_type=sx_type, _sx_int=sx_int, _sx_isinstance=sx_isinstance)
+    m.__dict__.update(_sx_len=sx_len, _sx_type=sx_type, _sx_int=sx_int, _sx_isinstance=sx_isinstance, _sx_from_bytes=sx_from_bytes)
     sys.modules["numpy"] = NP
     sys.modules["struct"] = struct_
     sys.modules["mmap"] = mmap_
